@@ -18,6 +18,13 @@ CHECKS = {
             "byte for byte over all 2^64 values; per-length maxima, injectivity and length monotonicity over all pairs.", "3 C04"),
     "C05": ("Bounded model checking over all pairs of 64-bit values and all pairs of 2- and 3-tuples: sign(memcmp) == sign(tuple "
             "compare), equal values identical bytes, prefix-freeness.", "3 C05"),
+    "C09": ("Bounded model checking of every generated packed-array instantiation (bit widths 1..32 x slot types x default/compact/"
+            "micro-promotion, filtered by the two-slot rule): Set/Get/SetIncr/SetHalf bit-level isolation and access footprint on "
+            "exact-size storage with symbolic index, value and contents; sorted insert/delete/member/search as one inductive step "
+            "against a reference sorted multiset.", "3 C09"),
+    "C10": ("Bounded model checking of the dimension pack/unpack and pair header over all (rows, cols), and of one cell write "
+            "(bit/unsigned 1-8 bytes/float/double) in small matrices behind headers of every width pair with symbolic coordinates and "
+            "prior contents: read-back, byte-level isolation of every other cell and of the header.", "3 C10"),
     "C11": ("Bounded model checking of varintBitstreamSet/Get for both documented word types over every offset, width, value and "
             "prior content of a 3-word stream held in an exact-size object (footprint), bit-level isolation and layout oracle.", "3 C11"),
     "C12": ("Bounded model checking of the four in-place add entry points over all (stored value, width, amount) with a 128-bit "
